@@ -7,8 +7,16 @@ convention on the REAL library; it records, per convention, which body was enter
 parameter (receiver, positional, defaulted, keyword-only, extra) and the outcome, plus the answers of the
 classification helpers.  The Lean model (AsynqModel.Lib.Decorators) computes the same observations from the objects
 `__get__`/`__call__`/`asynq`/`async_call` build (correspondence), and the Lean predicate `Decorators.spec` (the
-statement of C09, proved of the model for every cell and ARBITRARY argument lists) judges the implementation's
-observations on their own.
+statement of C09, proved of the model for every SUPPORTED cell and ARBITRARY argument lists: C09_spec_holds) judges the
+implementation's observations on their own.  `spec` is exact (C09_spec_exact): it accepts the one report of the
+reference table and nothing else - in particular nothing at all for a cell outside the supported bindings (none is
+generated: `cells()` enumerates exactly `Decorators.supported`).
+
+13 conventions are driven on the real code.  In the model they are 10 distinct computations: sync / nestedSync,
+asynqValue / yieldAsynq and asyncCall / asyncCallSync are one clause each BY DEFINITION (that a yield from a task,
+`.value()` and a nested synchronous call deliver the same outcome is C01/C02, assumed here), so agreement inside these
+pairs - like the irrelevance of a receiver's truth value and of earlier look-ups (`falsy`, `pre`: dimensions of the
+harness that no function of the model reads) - rests on this differential run, not on a theorem (BY_CONSTRUCTION).
 
 Three conventions make a SECOND call of the same decorated attribute - in flight in the same yield (`sibling`, through
 async_call: `siblingCall`) or completed / failed just before (`prior`).  The second call goes through another receiver
@@ -16,10 +24,17 @@ async_call: `siblingCall`) or completed / failed just before (`prior`).  The sec
 the objects are plain, falsy, or chosen so that their HASHES COLLIDE with those of the observed call (a user class with
 a constant __hash__ and __repr__, built-in ints k / k + 2**61-1, tuples (-1, k) / (-2, k)).  Each of the two calls
 must run the body with its own receiver and its own arguments (theorems C09_second_call, C09_other_keys_irrelevant,
-C09_dict_hash_irrelevant: the in-flight table of deduplicate and the caches of alru_cache / acached_per_instance are
-part of the model, with an arbitrary hash function).  When the second call would be the observed call itself (nothing to
-vary) the three conventions are skipped: how often a body runs for IDENTICAL calls is C12's / C13's subject."""
+C09_own_entries, C09_dict_hash_irrelevant: the in-flight table of deduplicate and the caches of alru_cache /
+acached_per_instance are part of the model, with an arbitrary hash function).  When the second call would be the
+observed call itself (nothing to vary) the three conventions are skipped: how often a body runs for IDENTICAL calls is
+C12's / C13's subject.
+
+An UNDECORATED generator function (kind raw x body gen / batch) is ordinary Python: every convention that reaches it
+hands back the unstarted generator object, no body is entered (C09_raw_generator).  These cells are outside the
+statement of C09 (it speaks about decorated callables) but inside what the helpers accept, so they are modelled and
+enumerated (they used to be skipped while the model claimed that the body runs)."""
 import hashlib
+import inspect
 import json
 import random
 
@@ -31,20 +46,37 @@ THEOREMS = [
     "AsynqModel.Decorators.C09_receiver",
     "AsynqModel.Decorators.C09_sync",
     "AsynqModel.Decorators.C09_direct",
-    "AsynqModel.Decorators.C09_outcome_agree",
+    "AsynqModel.Decorators.C09_outcome",
+    "AsynqModel.Decorators.C09_raw_generator",
+    "AsynqModel.Decorators.C09_body_kind_irrelevant",
+    "AsynqModel.Decorators.C09_body_kind_matters_raw",
     "AsynqModel.Decorators.C09_get_binder",
+    "AsynqModel.Decorators.C09_any_receiver",
     "AsynqModel.Decorators.C09_classify",
     "AsynqModel.Decorators.C09_convert",
     "AsynqModel.Decorators.C09_dedup_own_body",
+    "AsynqModel.Decorators.C09_separates",
     "AsynqModel.Decorators.C09_proxy_pure",
-    "AsynqModel.Decorators.C09_truthiness_history_irrelevant",
-    "AsynqModel.Decorators.C09_receiver_per_access",
     "AsynqModel.Decorators.C09_spec_holds",
+    "AsynqModel.Decorators.C09_spec_exact",
     "AsynqModel.Decorators.C09_dict_hash_irrelevant",
     "AsynqModel.Decorators.C09_second_call",
     "AsynqModel.Decorators.C09_second_call_default_key",
     "AsynqModel.Decorators.C09_second_call_receivers",
     "AsynqModel.Decorators.C09_other_keys_irrelevant",
+    "AsynqModel.Decorators.C09_own_entries",
+    # machine-checked witnesses that the hypotheses of the theorems above are needed
+    "AsynqModel.Decorators.C09_supported_needed",
+    "AsynqModel.Decorators.C09_available_needed",
+    "AsynqModel.Decorators.C09_second_call_key_needed",
+    "AsynqModel.Decorators.C09_key_injective_needed",
+    "AsynqModel.Decorators.C09_consistent_needed",
+]
+# statements that hold BY CONSTRUCTION of the model (proved by rfl; in Theorems/C09.lean for the record, NOT claimed as
+# property theorems): what they are about rests on the differential run only
+BY_CONSTRUCTION = [
+    "AsynqModel.Decorators.C09_truthiness_history_by_construction",   # Case.falsy / Case.pre are read by nothing
+    "AsynqModel.Decorators.C09_convention_pairs_by_definition",       # sync=nestedSync, asynqValue=yieldAsynq, asyncCall=asyncCallSync
 ]
 BUILDS = {"quick": ["py"], "thorough": ["py", "cy"]}
 EXHAUSTIVE = {"quick": True, "thorough": True}
@@ -52,20 +84,24 @@ CASE_TIMEOUT = 20
 RULE = ("exhaustive product: 12 decorator kinds (undecorated, asynq, asynq pure, async_proxy, async_proxy pure, asynq sync_fn pair, "
         "async_proxy sync_fn pair, make_async_decorator, deduplicate, aretry, alru_cache, acached_per_instance) x 13 "
         "bindings (module function; plain/staticmethod/classmethod x via instance/class/subclass instance/subclass; "
-        "function-style wrappers only on the bindings they are written for) x 3 body kinds (plain return, generator, "
-        "blocks on a batch) x returns/raises x 3 signatures (a,b=D,*,c=D | *args,**kw | a,b=D,*args,c=D,**kw) x "
+        "function-style wrappers only on the bindings they are written for = exactly the cells with Decorators.supported) x "
+        "3 body kinds (plain return, generator, blocks on a batch; for the undecorated kind too) x returns/raises x 3 "
+        "signatures (a,b=D,*,c=D | *args,**kw | a,b=D,*args,c=D,**kw) x "
         "11 fixed argument patterns (positional, keyword, default, keyword-only, extra, 4 malformed), then seeded random "
-        "argument lists; every cell runs 10 calling conventions (sync call, .asynq().value(), yield .asynq() from a task, "
-        "sync call inside a task, yield async_call.asynq, async_call(), get_async_fn, get_async_or_sync_fn, "
-        "get_async_fn(wrap_if_none=True), .asynq() with a same-named twin in flight, .asynq() and async_call with a SECOND "
-        "CALL OF THE SAME ATTRIBUTE in flight, .asynq() after such a call has completed) + the 5 classification helpers; "
+        "argument lists; every cell runs 13 calling conventions on the real code = 10 distinct computations of the model "
+        "(sync call [= sync call inside a task], .asynq().value() [= yield .asynq() from a task], yield async_call.asynq "
+        "[= async_call()], get_async_fn, get_async_or_sync_fn, get_async_fn(wrap_if_none=True), .asynq() with a same-named "
+        "twin in flight, .asynq() and async_call with a SECOND CALL OF THE SAME ATTRIBUTE in flight, .asynq() after such a "
+        "call has completed; the bracketed pairs are identified in the model by the C01/C02 assumption) + the 5 classification helpers; "
         "second-call family: every cell x (second call through another receiver | with other argument objects) x kind of "
         "objects (plain, all hashes and reprs equal, built-in ints with equal hashes, tuples with equal hashes, falsy) x "
         "3 body kinds on a call passing positional, defaulted and keyword-only parameters + seeded random calls; 30 % of "
         "the random calls of the main product draw these dimensions at random, 15 % raise an exception that derives "
         "from BaseException only or is falsy, 10 % use a user task class (asynq(cls=...)), 10 % a user key function "
-        "(deduplicate(keygetter=...), alru_cache(key_fn=...)); every class-bound cell is run again with FALSY instances and classes and after look-ups of the same attribute through the other access paths (base then subclass, subclass then base, instances in between); non-trivial = a body was entered by at least two "
-        "conventions with a receiver or at least one argument; distinct by hash of the cell")
+        "(deduplicate(keygetter=...), alru_cache(key_fn=...)); every class-bound cell is run again with FALSY instances "
+        "and classes and after look-ups of the same attribute through the other access paths (base then subclass, "
+        "subclass then base, instances in between) - dimensions the model does not read; non-trivial = a body was "
+        "entered by at least two conventions with a receiver or at least one argument; distinct by hash of the cell")
 TRUSTED = [
     "hand-written Lean model AsynqModel.Lib.Decorators (objects built by qcore.decorators.DecoratorBase.__init__/__get__, "
     "the asynq decorator/binder classes and tools wrappers) tied to the code by this exhaustive differential run only",
@@ -76,17 +112,30 @@ TRUSTED = [
     "qcore.decorators (compiled), qcore.caching.get_args_tuple, CPython descriptor protocol for function/staticmethod/classmethod",
 ]
 ASSUMPTIONS = [
-    "`.value()`, yielding a future from a task and a nested synchronous call deliver the future's own outcome (C01/C02)",
+    "`.value()`, yielding a future from a task and a nested synchronous call deliver the future's own outcome (C01/C02): "
+    "the model identifies the convention pairs sync/nestedSync, asynqValue/yieldAsynq, asyncCall/asyncCallSync by "
+    "definition, so that they agree on the real code is established by the differential run only",
     "asyncio mode is off (fn.asyncio is C15); single thread",
-    "function-style wrappers (aretry, alru_cache, acached_per_instance) are exercised only on functions and instance "
-    "methods; each convention runs on freshly generated classes, so caches are cold apart from the ONE earlier call of "
+    "restricted to the cells with Decorators.supported (hypothesis of every theorem, conjunct of spec): module-level "
+    "callables are plain functions; the function-style wrappers (aretry, alru_cache, acached_per_instance) are exercised "
+    "only on functions and instance methods (acached_per_instance on instance methods), as the property's quantifier says; "
+    "each convention runs on freshly generated classes, so caches are cold apart from the ONE earlier call of "
     "the convention `prior` (longer cache histories are C13)",
+    "an UNDECORATED generator function is outside the statement of C09 (it speaks about decorated callables): calling "
+    "it through sync / async_call / get_async_or_sync_fn / get_async_fn(wrap_if_none=True) yields the unstarted "
+    "generator object and runs nothing; modelled as it is (C09_raw_generator), not counted as a violation",
     "the second call of sibling / siblingCall / prior always differs from the observed one in its receiver or in every "
-    "argument object, with the same spelling (so any key function that keeps the arguments apart separates them); how "
-    "often a body runs for two IDENTICAL calls (in-flight sharing, cache hits) is C12 / C13 and the conventions are "
-    "skipped there; argument objects compare by identity (no two distinct objects are ==)",
-    "the class of the raised exception, a user task class and a user key function are not inputs of the model: its "
-    "answer is the same for all of them",
+    "argument object, with the same spelling (so any key function that keeps the arguments apart separates them: "
+    "hypothesis hkey of C09_second_call, needed - C09_second_call_key_needed); how often a body runs for two IDENTICAL "
+    "calls (in-flight sharing, cache hits) is C12 / C13 and the conventions are skipped there; argument objects "
+    "compare by identity (no two distinct objects are ==)",
+    "C09_dedup_own_body / C09_own_entries: entries of the function under test in the in-flight table / the caches were "
+    "put there by calls of that function (Table.ownConsistent) and none that runs with other arguments sits under this "
+    "call's key (Table.separates: any injective key function - the default is - or no own entry: C09_separates); both "
+    "needed: C09_consistent_needed, C09_key_injective_needed",
+    "the truth value of receivers, the history of attribute look-ups, the class of the raised exception, a user task "
+    "class and a user key function are not inputs of the model: its answer is the same for all of them (by "
+    "construction - no theorem is claimed; the harness varies them on the real code)",
 ]
 
 KINDS = ["raw", "asynq", "pure", "proxy", "proxyPure", "pair", "pairProxy", "mad", "dedup", "aretry", "alru", "acpi"]
@@ -222,8 +271,6 @@ def second_call_family(tier, rng):
                 if (rel, vk) == ("args", "tok"):
                     continue  # the default of every other case
                 for body in BODIES:
-                    if kind == "raw" and body != "plain":
-                        continue
                     n += 1
                     sig = SIGS[n % 3]
                     base = dict(kind=kind, ft=ft, acc=acc, body=body, sig=sig, rel=rel, vk=vk)
@@ -243,8 +290,6 @@ def options_family():
         binds = [("plain", "inst"), ("classm", "subCls")] if kind not in FN_STYLE else [("plain", "inst")]
         for ft, acc in binds:
             for i, body in enumerate(BODIES):
-                if kind == "raw" and body != "plain":
-                    continue
                 base = dict(kind=kind, ft=ft, acc=acc, body=body, sig=SIGS[i], pos=[30], kw=[[3, 32]])
                 for ek in EKS[1:]:
                     cases.append(dict(base, raises=1, ek=ek, rel="recv"))
@@ -264,16 +309,14 @@ def plan(tier, seed):
     for kind, ft, acc in cells():
         for falsy, pre in variants(tier, acc):
             for body in BODIES:
-                if kind == "raw" and body != "plain":
-                    continue
                 for sig in SIGS:
                     args = [PATTERNS[i] for i in REDUCED] + [gen_args(rng)]
                     for pos, kw in args:
                         cases.append(dict(kind=kind, ft=ft, acc=acc, body=body, raises=0, sig=sig, pos=list(pos),
                                           kw=[list(x) for x in kw], falsy=falsy, pre=list(pre)))
         for body in BODIES:
-            if kind == "raw" and body != "plain":
-                continue  # an undecorated function is ordinary synchronous code
+            # (an undecorated generator function is ordinary Python: every convention that reaches it hands back the
+            # generator object and enters no body - theorem C09_raw_generator; these cells used to be skipped)
             for raises in (0, 1):
                 for sig in SIGS:
                     for pos, kw in PATTERNS:
@@ -838,6 +881,9 @@ def _convention(case, lib, conv):
         if isinstance(r, Wrapped):
             wrapped, r = 1, r.value
         out = "(gotFuture)" if isinstance(r, FutureBase) else "(ok %d %d)" % (UNKNOWN, wrapped)
+        if inspect.isgenerator(r):
+            out = "(gotGenerator)"   # an unstarted generator object came back (an undecorated generator function)
+            r.close()
         for i, x in w.ret.items():
             if r is x:
                 out = "(ok %d %d)" % (i, wrapped)
